@@ -168,6 +168,10 @@ fn value(p: &mut Parser<'_>, skip: Skip) -> Result<Option<Checkpoint<PointerU32>
             let c = p.checkpoint()?;
             p.bump()?;
 
+            // The skip handed to us has been consumed above, what follows the
+            // parenthesis has to be counted again.
+            let skip = p.count_skip();
+
             let skip = match operation(p, skip)? {
                 Some(skip) => skip,
                 None => return Ok(None),
@@ -177,6 +181,9 @@ fn value(p: &mut Parser<'_>, skip: Skip) -> Result<Option<Checkpoint<PointerU32>
                 return Ok(None);
             }
 
+            // Group the parentheses with what they enclose, so that they are
+            // evaluated as one value wherever they appear.
+            p.close_at(&c, OPERATION)?;
             Ok(Some(c))
         }
         _ => Ok(None),
@@ -244,7 +251,9 @@ pub fn operation(p: &mut Parser<'_>, mut skip: Skip) -> Result<Option<Skip>> {
         p.close_at(&last, OPERATION)?;
     }
 
-    return Ok(Some(skip));
+    // NB: the skip counted after the last operator has been consumed by the
+    // operand which followed it.
+    return Ok(Some(p.count_skip()));
 
     fn operand(
         p: &mut Parser<'_>,
